@@ -479,12 +479,15 @@ def make_exc(boot, kind):
     }[kind]()
 
 
-def real_call(fs, kind, exc_obj):
-    """returns (routed, escaped_exception)."""
+def real_call(fs, kind, exc_obj, took=0.0):
+    """returns (routed, escaped_exception). took: seconds the gateway leg hangs before it fails (the clock
+    moves inside the `with` block, as with a connect or read timeout)."""
     routed = None
     try:
         with fs:
             routed = fs.state_ok
+            if routed and took:
+                CLOCK.t += took
             if routed and exc_obj is not None:
                 raise exc_obj
     except BaseException as e:  # noqa: B902 - observing everything is the point
@@ -550,7 +553,10 @@ def run_failsafe_case(repo, case, v=None):
             routed, exc_obj, esc = fs.state_ok, None, None
         else:
             exc_obj = None if kind == "S" else make_exc(boot, kind)
-            routed, esc = real_call(fs, kind, exc_obj)
+            # a slow failing call: the routing decision is taken at the start, the failure is recorded (and a
+            # cool-down, if it opens one, starts) when the call ends - the reference needs no ageing: after a
+            # routed call every surviving reference state is closed or freshly opened
+            routed, esc = real_call(fs, kind, exc_obj, float(ev[1]) if len(ev) > 1 else 0.0)
         obs.append(bool(routed))
         if routed:
             stats["routed"] += 1
@@ -792,7 +798,10 @@ def gen_failsafe_case(rng, length):
             dt = rng.choice([0, 0.25, cd - 1, cd - 0.25, cd, cd, cd + 0.25, cd + 1, 3 * cd, 0.5])
             evs.append(["adv", float(max(dt, 0))])
         elif x < 0.30 + 0.7 * pe * 0.8:
-            evs.append([rng.choice(["E", "E", "E:sub", "E:conn", "E:connsub"])])
+            ev = [rng.choice(["E", "E", "E:sub", "E:conn", "E:connsub"])]
+            if rng.random() < 0.2:  # the failing call hangs first (timeouts): 0.5 s .. longer than the cool-down
+                ev.append(float(rng.choice([0.5, cd / 2.0, cd, cd + 1, 30])))
+            evs.append(ev)
         elif x < 0.86:
             evs.append(["S"])
         elif x < 0.93:
